@@ -353,6 +353,9 @@ func c09(r *Run) {
 	}
 	if r.keep == nil {
 		r.borrow([]string{"C06.R3:SetOnRequest-kicks"}, "C06.R3", "C09.R2", func() { c06(r) })
+		// a task (OnConnect or handler) starts only for the winner of the processing lock: a second task next to a running one
+		// starts callbacks after - or next to - the close callbacks (C05.R1)
+		r.borrow([]string{"C05.R1:task-entry-held"}, "C05.R1", "C09.R6", func() { c05(r) })
 	}
 	_ = fmt.Sprint
 }
